@@ -25,7 +25,7 @@ import tempfile
 from pathlib import Path
 
 from simgriffe import core
-from simgriffe.seams import SHM
+from simgriffe.seams import SHM, ListingSeam
 
 GIT_ENV = {
     "GIT_AUTHOR_NAME": "Sim",
@@ -76,6 +76,9 @@ def _version(rng, i, kind, sibling=False):
     if rng.random() < 0.06:
         # scale: a module far longer than anything else in the package
         files["a.py"] = f"<BIG:{rng.choice([3000, 10500, 70000])}>\n" + files["a.py"]
+    if rng.random() < 0.15:
+        # a tracked symbolic link to a module of the package (`compat.py -> a.py`): two file names, one file
+        files["compat.py"] = "<LINK:a.py>"
     if kind == "syntax":
         files["a.py"] = "def f(:\n    pass\n"
     elif kind == "undecodable":
@@ -176,11 +179,13 @@ def generate(rng, opts):
                 faults.append({"kind": "ext", "nth": rng.choice([0, 1, 3, 8]), "how": rng.choice(["write_file", "write_file", "detach_checkout", "chdir", "remove_checkout"])})
             else:
                 faults.append({"kind": "bytecode"})
+        # the order in which the checkout's directories are listed is the file system's choice
+        listing = rng.choice([None, None, {"mode": "sorted"}, {"mode": "reversed"}, {"mode": "hash", "key": rng.randrange(1 << 30)}])
         if r < 0.6:
-            ops.append({"thread": rng.random() < 0.2, "op": "load_git", "ref": ref, "form": rng.choice(["name", "name", "path"]), "repo_arg": rng.choice(["abs", "abs", "dot", "relative", "pathobj", "child", "dotchild"]), "resolve_aliases": rng.random() < 0.5, "force_inspection": any(f["kind"] == "bytecode" for f in faults), "faults": faults})
+            ops.append({"listing": listing, "thread": rng.random() < 0.2, "op": "load_git", "ref": ref, "form": rng.choice(["name", "name", "path"]), "repo_arg": rng.choice(["abs", "abs", "dot", "relative", "pathobj", "child", "dotchild"]), "resolve_aliases": rng.random() < 0.5, "force_inspection": any(f["kind"] == "bytecode" for f in faults), "faults": faults})
         else:
             base = rng.choice([None, None, rng.choice(refs)])
-            ops.append({"thread": rng.random() < 0.2, "op": "check", "api": rng.choice(["check", "main"]), "against": ref if rng.random() < 0.85 else None, "base_ref": base, "style": rng.choice([None, "oneline", "verbose", "markdown", "github"]), "faults": faults})
+            ops.append({"listing": listing, "thread": rng.random() < 0.2, "op": "check", "api": rng.choice(["check", "main"]), "against": ref if rng.random() < 0.85 else None, "base_ref": base, "style": rng.choice([None, "oneline", "verbose", "markdown", "github"]), "faults": faults})
     return {"world": {"layout": layout, "commits": commits, "state": state, "sibling": sibling}, "ops": ops}
 
 
@@ -246,6 +251,9 @@ def build_repo(root, world):
                 data = content.encode("latin-1") if c["kind"] == "undecodable" and rel == "b.py" else content.encode("utf8")
                 full = os.path.normpath(os.path.join(pkg_dir, rel))
                 os.makedirs(os.path.dirname(full), exist_ok=True)
+                if content.startswith("<LINK:"):
+                    os.symlink(content[6:-1], full)
+                    continue
                 with open(full, "wb") as fh:
                     fh.write(data)
         with open(os.path.join(repo, "README.md"), "a") as fh:
@@ -605,6 +613,8 @@ def _source_check(ctx, world, top, ref_commit, w_norm, tags, resolved_expected=F
             key = None
             if isinstance(fp, Path):
                 key = fp.name if fp.parent.name == "pkg" else f"../{fp.parent.name}/{fp.name}"
+            if files is not None and key in files and files[key].startswith("<LINK:"):
+                key = files[key][6:-1]  # a symbolic link: the lines are those of the file it names
             if files is not None and not m.is_module and key in files and m.lineno and m.endlineno:
                 expected = _expand(files[key]).splitlines()[m.lineno - 1 : m.endlineno]
                 if lines != expected:
@@ -775,8 +785,12 @@ def execute(plan, ctx):
             if any(f["kind"] == "bytecode" for f in faults):
                 sys.dont_write_bytecode = False  # CPython's default; this sandbox exports PYTHONDONTWRITEBYTECODE=1
                 ctx.fault("bytecode-caching-enabled")
+            listing = ListingSeam(tmpdir, op.get("listing") or {"mode": "sorted"}, None) if op.get("listing") else None
+
             def _operation():
-                with CheckoutReadSeam(tmpdir, faults, ctx):
+                import contextlib
+
+                with CheckoutReadSeam(tmpdir, faults, ctx), (listing.installed() if listing else contextlib.nullcontext()):
                     if op["op"] == "load_git":
                         spec = "pkg" if op["form"] == "name" else Path("src/pkg" if world["layout"] == "src" else "pkg")
                         repo_arg = {"abs": repo, "dot": ".", "relative": os.path.join("..", os.path.basename(repo)), "pathobj": Path(repo),
@@ -1008,7 +1022,7 @@ class _Prop:
         "extension raising Exception / KeyboardInterrupt / SystemExit at its n-th hook call or writing files into "
         "the checkout, bytecode caching by inspected imports. Full repository snapshot equality and empty temp dir "
         "after every operation; usability of returned objects after success. Non-trivial = every run; distinct = "
-        "distinct (operation/outcome/fault trace, layout, dirty state, worktree state). Also drawn: Git shorthand refs (@, @^), $TMPDIR behind a symlink, a post-checkout hook (succeeding or failing), user-chosen directory names for the repository and the linked worktree (incl. names that look like normalised refs), operating from a linked worktree, a user branch colliding with the temporary name of any ref, repository argument as absolute / . / relative / Path, a public package that re-exports from a private sibling package of the same checkout; after success aliases into the checkout must be usable and a changed parameter list of the public function must be reported by check. Round s: a user tag named like the temporary branch, the checkout deleted while in use. Round r: one interruption or transient spawn failure inside the clean-up commands, an extension changing the working directory, $TMPDIR inside the repository, translated git messages, a user branch named `griffe-`. Round j/k: remote-tracking refs and branch.autoSetupMerge; the git child killed half-way through `worktree add` (branch created, worktree registered and still locked 'initializing', index locked, directory partly populated)."
+        "distinct (operation/outcome/fault trace, layout, dirty state, worktree state). Also drawn: Git shorthand refs (@, @^), $TMPDIR behind a symlink, a post-checkout hook (succeeding or failing), user-chosen directory names for the repository and the linked worktree (incl. names that look like normalised refs), operating from a linked worktree, a user branch colliding with the temporary name of any ref, repository argument as absolute / . / relative / Path, a public package that re-exports from a private sibling package of the same checkout; after success aliases into the checkout must be usable and a changed parameter list of the public function must be reported by check. Round t/u: Latin-1 directory names, locations printed by check must be paths of the repository, tracked symbolic links to modules, a directory-listing seam over the temporary checkout. Round s: a user tag named like the temporary branch, the checkout deleted while in use. Round r: one interruption or transient spawn failure inside the clean-up commands, an extension changing the working directory, $TMPDIR inside the repository, translated git messages, a user branch named `griffe-`. Round j/k: remote-tracking refs and branch.autoSetupMerge; the git child killed half-way through `worktree add` (branch created, worktree registered and still locked 'initializing', index locked, directory partly populated)."
     )
     COMPONENTS = {
         "real": ["_griffe.git (tmp_worktree, assert_git_repo, get_latest_tag, get_repo_root)", "_griffe.loader.load_git", "_griffe.cli.check / main", "_griffe.diff", "git 2.39 binary", "real repository and checkout on tmpfs"],
